@@ -35,11 +35,18 @@ Definition q_upd_table (crc b : N) : N :=
 
 Definition crc24_hash (l : list N) : N := N.land (fold_left q_upd_table l RTCM_CRC_INIT) RTCM_CRC_MASK.
 
-(* ---- the frame format ---- *)
-Definition RTCM_OVERHEAD : nat := N.to_nat (RTCM_HEADER_BYTES + RTCM_CRC_BYTES).
+(* ---- the frame format (RTCM 10403 transport layer; these are SPEC constants, NOT taken from the source:
+   the model uses the regenerated ones and the proofs need them to agree) ---- *)
+Definition SPEC_PREAMBLE : N := 211.        (* 0xD3 *)
+Definition SPEC_HEADER_BYTES : N := 3.
+Definition SPEC_CRC_BYTES : N := 3.
+Definition SPEC_MAX_PAYLOAD : N := 1023.
+Definition SPEC_LEN_MASK : N := 1023.       (* 10-bit length *)
+Definition SPEC_TYPE_SHIFT : N := 4.        (* message number = first 12 bits of the payload *)
+Definition RTCM_OVERHEAD : nat := N.to_nat (SPEC_HEADER_BYTES + SPEC_CRC_BYTES).
 
 (* (b1 << 8 | b2) & 0x3FF *)
-Definition rtcm_len (b1 b2 : N) : N := N.land (N.lor (N.shiftl b1 8) b2) RTCM_LEN_MASK.
+Definition rtcm_len (b1 b2 : N) : N := N.land (N.lor (N.shiftl b1 8) b2) SPEC_LEN_MASK.
 
 (* big-endian value of a byte string *)
 Fixpoint be (l : list N) : N :=
@@ -47,19 +54,19 @@ Fixpoint be (l : list N) : N :=
 
 (* message number: the 12 bits that follow the transport header *)
 Definition rtcm_msg_number (l : list N) : N :=
-  N.shiftr (N.lor (N.shiftl (nth 3 l 0) 8) (nth 4 l 0)) RTCM_TYPE_SHIFT.
+  N.shiftr (N.lor (N.shiftl (nth 3 l 0) 8) (nth 4 l 0)) SPEC_TYPE_SHIFT.
 
 (* what a left-to-right scan decides at one position, given the bytes from there on *)
 Definition judge_rtcm (cap : N) (l : list N) : verdict :=
   match l with
   | [] => More
   | b0 :: _ =>
-      if negb (N.eqb b0 RTCM_PREAMBLE) then Reject else
-      if Nat.ltb (length l) (N.to_nat RTCM_HEADER_BYTES) then More else
+      if negb (N.eqb b0 SPEC_PREAMBLE) then Reject else
+      if Nat.ltb (length l) (N.to_nat SPEC_HEADER_BYTES) then More else
       let len := rtcm_len (nth 1 l 0) (nth 2 l 0) in
       let size := (N.to_nat len + RTCM_OVERHEAD)%nat in
-      if (cap <? N.of_nat size) || (RTCM_HEADER_BYTES + RTCM_MAX_PAYLOAD + RTCM_CRC_BYTES <? N.of_nat size) then Reject else
+      if (cap <? N.of_nat size) || (SPEC_HEADER_BYTES + SPEC_MAX_PAYLOAD + SPEC_CRC_BYTES <? N.of_nat size) then Reject else
       if Nat.ltb (length l) size then More else
-      let crcn := N.to_nat RTCM_CRC_BYTES in
+      let crcn := N.to_nat SPEC_CRC_BYTES in
       if N.eqb (crc24q (firstn (size - crcn) l)) (be (sub l (size - crcn) crcn)) then Accept size else Reject
   end.
